@@ -159,6 +159,22 @@ Proof.
   destruct (a mod 4) as [|[[p|p|]|[p|p|]|]]; apply S; try exact I; reflexivity.
 Qed.
 
+Lemma float_whole_number neg mant zeros :
+  fw_ok mant = true -> is_json_number (float_str (FW neg mant zeros)) = true.
+Proof.
+  unfold fw_ok, float_str. destruct mant as [|c r] eqn:Em; [discriminate|]. intros H.
+  apply andb_prop in H. destruct H as [Hd Hc]. apply negb_true_iff in Hc. apply N.eqb_neq in Hc.
+  rewrite <- Em in *.
+  assert (Hz : forallb is_digit (repeat 48 zeros) = true) by (induction zeros; [reflexivity|exact IHzeros]).
+  assert (Hs : int_shape (mant ++ repeat 48 zeros)).
+  { right. subst mant. exists c, (r ++ repeat 48 zeros). split; [reflexivity|].
+    cbn [forallb] in Hd. apply andb_prop in Hd. split; [apply Hd|exact Hc]. }
+  assert (Ha : forallb is_digit (mant ++ repeat 48 zeros) = true) by (rewrite forallb_app, Hd, Hz; reflexivity).
+  destruct neg; cbn [app]; rewrite <- (app_nil_r (mant ++ repeat 48 zeros)).
+  - rewrite json_number_signed; [reflexivity|exact Hs|exact Ha|exact I].
+  - rewrite json_number_unsigned; [reflexivity|exact Hs|exact Ha|exact I].
+Qed.
+
 Lemma digits_plain : forall s, forallb is_digit s = true -> plain s = true.
 Proof.
   induction s as [|c s IH]; intros H; [reflexivity|].
@@ -386,7 +402,8 @@ Proof.
   - apply LXs_LX. apply LXs_jstr.
   - destruct b; apply LXs_LX; lx_const.
   - apply LX_num. apply dec_Z_number.
-  - destruct f as [x| |n]; try discriminate. apply LX_num. apply float_str_number.
+  - destruct f as [x|n m z| |n]; try discriminate; apply LX_num; [apply float_str_number|].
+    apply float_whole_number. exact Hf.
   - rewrite value_to_json_list. cbn [value_json]. rewrite tokens_of_arr'.
     apply LXs_LX.
     change (91 :: join [44; 32] (map value_to_json l) ++ [93])
